@@ -501,11 +501,16 @@ def import_dobs_string(content, full_output=False, separator_insertion=True):
             _check(False)
     names = list(set(names))
 
+    # An entry of exactly zero marks a configuration on which the observable was not measured.
+    # Remember the markers before the mean is added back: a sample may well be exactly zero.
+    maskd = {}
     for name in names:
+        maskd[name] = []
         for i in range(len(deltad[name])):
+            maskd[name].append(np.asarray(deltad[name][i]) != 0.)
             tmp = np.zeros_like(deltad[name][i])
             for j in range(len(deltad[name][i])):
-                if deltad[name][i][j] != 0.:
+                if maskd[name][i][j]:
                     tmp[j] = deltad[name][i][j] + mean[i]
             deltad[name][i] = tmp
 
@@ -521,7 +526,7 @@ def import_dobs_string(content, full_output=False, separator_insertion=True):
             repdeltas = []
             repidl = []
             for j in range(len(deltad[name][i])):
-                if deltad[name][i][j] != 0.:
+                if maskd[name][i][j]:
                     repdeltas.append(deltad[name][i][j])
                     repidl.append(idld[name][j])
             if len(repdeltas) > 0:
